@@ -85,6 +85,13 @@ Proof. vm_compute. reflexivity. Qed.
 Theorem labels_are_requested_names : labels_ok gen_groups = true.
 Proof. vm_compute. reflexivity. Qed.
 
+(* the group names are looked up without regard to case: every spelling probed (lower case, upper case,
+   capitalised, alternating; 4 for each of the 7 groups) resolves to the group it spells *)
+Theorem names_resolve_case_insensitively :
+  length gen_name_lookups = 28%nat
+  /\ forallb (fun t => let '(_, want, got) := t in String.eqb want got) gen_name_lookups = true.
+Proof. vm_compute. split; reflexivity. Qed.
+
 (* the regenerated matrices are what the parser MODEL (binary64 instance) makes of the regenerated
    strings: ties model/Parse.v to the tables, for all 17 operation strings *)
 From PV Require Import Num model.Parse.
